@@ -45,7 +45,7 @@ CHECKS = {
    technique="Lean 4 proof (association-list algebra, string-prefix lemma, kernel-evaluated examples) + differential correspondence with the real FileConfig and CLI",
    design="§6-C20"),
  "C06": dict(
-   text="Theorems for ALL acyclic workflows: with no live/failed/cancelled job the submitted set is exactly the closure of the stale targets under 'depends on' (submits_is_stale_closure, rerun_exact: submitted iff transitively downstream of a stale target); convergence: if every target with outputs is file-wise up to date and jobs are all completed/unknown, every such target is reported completed and the next run submits exactly the targets without outputs (converges, by induction on rank); the file-level premise is proved for any execution order in which each job stamps its outputs after all its prerequisites (TouchLemmas.stampSeq_uptodate, arbitrary length).",
+   text="Theorems for ALL acyclic workflows: with no live/failed/cancelled job the submitted set is exactly the closure of the stale targets under 'depends on' (submits_is_stale_closure, rerun_exact: submitted iff transitively downstream of a stale target); convergence: if every target with outputs is file-wise up to date and jobs are all completed/unknown, every such target is reported completed and the next run submits exactly the targets without outputs (converges, by induction on rank); the file-level premise is proved for any execution order in which each job stamps its outputs after all its prerequisites (TouchLemmas.stampSeq_uptodate, arbitrary length) and lifted to the world model: the cluster finishing the tracked jobs of the submitted targets in ANY legal order leaves every drained target with outputs not stale and changes no other file nor the tracked map (drain_uptodate, drain_frame).",
    note=CLI_NOTE + "The glue between the abstract premises (no two producers, inputs produced earlier or existing) and the graph model is by C03/C04 theorems; it is not assembled into one end-to-end Lean statement (partial). Real kernel mtimes are replaced by os.utime stamps. Local worker pool backend is covered by C07/C11-C14 checks, not by this history engine.",
    technique="Lean 4 proof (closure characterisation, induction on rank, stamping lemma) + CLI history correspondence on Slurm/SGE/LSF fakes",
    design="§6-C06"),
